@@ -69,6 +69,9 @@ pub struct Profile {
     pub self_update_bias: u32,
     /// chance (of 256) that an expression slot becomes a helper call when helpers exist
     pub call_bias: u32,
+    /// chance (of 256) that the condition of a conditional expression outside a control position
+    /// may read data (signals, ports, tainted locals) even when `signal_conditions` is off
+    pub data_ternary_chance: u32,
 }
 
 #[derive(Clone, Debug)]
@@ -111,6 +114,7 @@ impl Profile {
             nested_signal_decls: false,
             self_update_bias: 0,
             call_bias: 0,
+            data_ternary_chance: 0,
         }
     }
     pub fn sem(template: bool, prime: BigUint) -> Profile {
@@ -144,6 +148,7 @@ impl Profile {
             nested_signal_decls: false,
             self_update_bias: 0,
             call_bias: 0,
+            data_ternary_chance: 0,
         }
     }
 }
@@ -497,7 +502,10 @@ impl<'a, 'b> Gen<'a, 'b> {
             8 => {
                 if self.p.ops != OpsLevel::Trivial {
                     let saved = self.control_ctx;
-                    self.control_ctx = true;
+                    let data_cond = !saved && self.p.data_ternary_chance > 0 && self.t.chance(self.p.data_ternary_chance);
+                    if !data_cond {
+                        self.control_ctx = true;
+                    }
                     let c = self.expr(depth - 1);
                     self.control_ctx = saved;
                     let a = self.expr(depth - 1);
